@@ -2,6 +2,7 @@ import ZkElGamal.Proofs.RangeLemmas
 import ZkElGamal.Proofs.Batch
 import ZkElGamal.Proofs.IppExtract
 import ZkElGamal.Proofs.RangeExtract
+import ZkElGamal.Proofs.Ipp
 import Mathlib.Algebra.Field.ZMod
 import Mathlib.Algebra.Module.Prod
 import Mathlib.Tactic.NormNum.Prime
@@ -244,6 +245,57 @@ theorem Epoly_eq_zero_iff (comms : List G) (bls : List ℕ) (pf : Proof F G) (c 
   unfold Epoly
   rw [sub_eq_zero]
   constructor <;> intro h <;> rw [h] <;> abel
+
+/-- the triples `(s_{n-1-i}, y^{-i}, z^j 2^k)` the `H_i` coefficients are computed from -/
+def hTriples (bls : List ℕ) (c : Challenges F) : List ((F × F) × F) :=
+  List.zip (List.zip c.s.reverse (powers c.y⁻¹ bls.sum)) (concatZAnd2 c.z bls)
+
+omit [DecidableEq G] [PtCodec G] in
+/-- **the inner-product part of the mega-check is the verification equation of the inner-product argument**
+    on `P = A + x•S − e•H̃ + (w·t̂)•B − z•ΣG_i + Σ (z + y^{-i} z² d_i)•H_i` with `Q = w•B`, generators `G_i` and
+    `H'_i = y^{-i}•H_i`, in its "s-vector" form:
+    `P + Σ u_j²•L_j + Σ u_j⁻²•R_j = a•⟨s, G⟩ + b•⟨s⁻¹, H'⟩ + (a·b)•Q`. -/
+theorem Eipp_eq_zero_iff (gG gH : List G) (bls : List ℕ) (pf : Proof F G) (c : Challenges F)
+    (h3 : c.s.length = gG.length) :
+    Eipp gG gH bls pf c = 0 ↔
+      (pf.A + c.x • pf.S - pf.eBlinding • Hp + (c.w * pf.tx) • Gp - c.z • gG.sum
+          + msm ((hTriples bls c).map fun t => c.z + t.1.2 * (c.z * c.z * t.2)) gH)
+        + msm c.uSq pf.ipp.Ls + msm c.uInvSq pf.ipp.Rs
+      = pf.ipp.a • msm c.s gG + pf.ipp.b • msm ((hTriples bls c).map fun t => t.1.2 * t.1.1) gH
+        + (c.w * (pf.ipp.a * pf.ipp.b)) • Gp := by
+  have hg : msm (gCoeffs pf c) gG = (-c.z) • gG.sum + (-pf.ipp.a) • msm c.s gG := by
+    have : gCoeffs pf c = c.s.map fun s => (-c.z) + (-pf.ipp.a) * s := by
+      unfold gCoeffs; apply List.map_congr_left; intro s _; ring
+    rw [this, msm_affine _ _ _ _ h3]
+  have hh : msm (hCoeffs bls pf c) gH
+      = msm ((hTriples bls c).map fun t => c.z + t.1.2 * (c.z * c.z * t.2)) gH
+        + (-pf.ipp.b) • msm ((hTriples bls c).map fun t => t.1.2 * t.1.1) gH := by
+    have : hCoeffs bls pf c = (hTriples bls c).map fun t =>
+        (c.z + t.1.2 * (c.z * c.z * t.2)) + (-pf.ipp.b) * (t.1.2 * t.1.1) := by
+      unfold hCoeffs hTriples; apply List.map_congr_left; intro t _; ring
+    rw [this, msm_map_add, ← msm_map_mul, List.map_map]; rfl
+  unfold Eipp
+  rw [hg, hh]
+  constructor
+  · intro h
+    rw [← sub_eq_zero]
+    linear_combination (norm := module) h
+  · intro h
+    rw [← sub_eq_zero] at h
+    linear_combination (norm := module) h
+
+omit [DecidableEq G] [PtCodec G] [PedGens G] in
+/-- the `s` vector of the verifier is the coefficient vector of the fully folded generators: folding `G` with
+    `(u⁻¹, u)` and `H` with `(u, u⁻¹)` in every round leaves the single points `⟨s, G⟩` and `⟨s.reverse, H⟩`.
+    (So the right-hand side of `Eipp_eq_zero_iff` is `a•g + b•h + ab•Q` over the folded generators — the leaf
+    relation of `ipp_special_sound`; what remains unproved is only the re-indexing between lists and the
+    tree-shaped index type of that theorem.) -/
+theorem sVector_folds_generators (us : List F) (h : ∀ u ∈ us, u ≠ 0) (gG gH : List G)
+    (hg : gG.length = 2 ^ us.length) (hh : gH.length = 2 ^ us.length) :
+    foldGens true us gG = [msm (sVector ((us.foldl (· * ·) 1)⁻¹) (us.map fun u => u * u)) gG] ∧
+    foldGens false us gH = [msm (sVector ((us.foldl (· * ·) 1)⁻¹) (us.map fun u => u * u)).reverse gH] := by
+  rw [sVector_eq_sFold us h, sFold_reverse]
+  exact ⟨foldGens_sFold us gG hg, foldGens_sFoldInv us gH hh⟩
 
 /-- **first step of the Bulletproofs extractor** (special soundness in the challenge `x`): three accepting
     polynomial-commitment equations `t_i•B + b_i•H = W + x_i•T₁ + x_i²•T₂` with the same `W, T₁, T₂`
